@@ -511,9 +511,17 @@ class Evaluator(object):
         return {'|': a | b, '&': a & b, '-': a - b, '^': a ^ b}[op.v]
 
     def op_setfold(self, name, recv, others):
-        acc = self.ev(recv)
+        rest = list(self.ev(others))
+        if recv == Const('$unbound'):
+            # set.union(*xs): the first of xs is the receiver
+            if not rest:
+                raise GraphError("TypeError: unbound method set.%s() needs "
+                                 "an argument" % name.v)
+            acc, rest = rest[0], rest[1:]
+        else:
+            acc = self.ev(recv)
         acc = frozenset(acc.keys() if isinstance(acc, dict) else acc)
-        for o in self.ev(others):
+        for o in rest:
             o = frozenset(o.keys() if isinstance(o, dict) else o)
             acc = {'intersection': acc & o, 'union': acc | o,
                    'difference': acc - o}[name.v]
@@ -729,6 +737,8 @@ class Evaluator(object):
 
     def op_graph(self, base, edges, nodes, sedges=None):
         g = self.ev(base)
+        if not hasattr(g, 'nodes') and hasattr(g, 'g'):
+            g = g.g         # the graph part of a Kripke value
         succ = {n: set(g.succ[n]) for n in g.nodes}
         if sedges is not None:
             for (s, d) in self.ev(sedges):
